@@ -886,6 +886,10 @@ def rule_destroy2(ctx, rep, rid):
         rep.touch(f)
         db = pat.calls(f, "cds_lfht_delete_bucket")
         fr = [c for c in f.calls() if c.callee in ("poison_free", "free")] + [i for i in f.all_insts() if i.op == "icall" and (lambda e: e[0] == "load" and e[1].endswith("cds_lfht_alloc.free"))(ir.expr(f, i.d["fp"], 4))]
+        # ... including what it releases through helpers (split counters) and the mutex: a refused destroy must leave the table usable
+        def _frees(g):
+            return any((c_.op == "call" and c_.callee in ("poison_free", "free")) or (c_.op == "icall" and (lambda e: e[0] == "load" and e[1].endswith("cds_lfht_alloc.free"))(ir.expr(g, c_.d["fp"], 4))) for c_ in g.all_insts())
+        fr += [c for c in f.calls() if c.callee == "pthread_mutex_destroy" or (m.fn(c.callee) is not None and m.fn(c.callee).srcname not in ("cds_lfht_delete_bucket", "poison_free") and _frees(m.fn(c.callee)))]
         if not db:
             rep.bad(rid, name + ".delete_bucket", "%s releases the table without cds_lfht_delete_bucket(): bucket memory leaks and a non-empty table is destroyed without complaint" % name, [f.name])
             continue
